@@ -161,6 +161,24 @@ check('C19', 'explicit-state search over library-call histories on one block (al
       'after every history the canonical block state must equal the initial one, no call may raise, and every synthesize_trials call must return valid '
       'sequences with the same columns as the first.', 'discrete validity by the reference membership oracle', 'DESIGN.md section 4, C19')
 
+check('C20', 'bounded-exhaustive design-space enumeration x {synthesized results, all well-formed experiment lists of <= 2 experiments x <= 2 trials in every key order}',
+      'For every discrete design of strata S1, S2, S4, S6 (hidden weight factors, implied factors, Repeat, Nest) the three conversions are applied to '
+      'synthesized and to arbitrary well-formed experiments lists: tuples, dicts and CSV rows must equal the given values per experiment and trial in '
+      'design order; no HiddenName key or column; synthesized results carry exactly the declared factor names.',
+      'tuple/column order = declaration order of the design; continuous columns out of scope (A9)', 'DESIGN.md section 4, C20')
+
+check('C22', 'bounded design enumeration x stateless DFS over every draw of the continuous samplers (distribution.random seam / custom functions), deviation bound 2/3, horizon',
+      'Designs with a base continuous factor, a same-trial derived factor, a window factor (width 2-3, stride 1-2, start None/0/late), a cumulative factor '
+      'and 0-2 ContinuousConstraints: for every draw schedule within the deviation bound every returned sequence has one value per trial, satisfies all '
+      'predicates, returns the draws of the accepted attempt, and its derived/window/cumulative values are recomputed from the same returned sequence '
+      '(NaN exactly before start, off stride, before trial 0); discrete part valid.', 'T <= 4; menu of 3 draw values; discrete validity by membership oracle',
+      'DESIGN.md section 4, C22')
+
+check('C29', 'bounded-exhaustive design-space enumeration x stateless DFS over SMGen random() draws (arity-revealing probe), deviation bound 1/2, horizon; fake timer fired at scripted points',
+      'For every design of strata S1, S1x, S2, S4, S6 every draw schedule within the deviation bound (and the timer handler fired at no/one draw) is run on the '
+      'real SMGen: the outcome must be a refusal raised by _cexit or sequences that are all valid for the design; any other exception is an internal failure.',
+      DESIGN_NOTE + '; timer modelled at its hand-over points only', 'DESIGN.md section 4, C29')
+
 
 def build():
     props = [json.loads(l) for l in (ROOT / 'properties.jsonl').read_text().splitlines() if l.strip()]
